@@ -27,7 +27,7 @@ GEN_FILES = ["BiotiteModel/Gen/C15.lean"]
 RULE = ("exact stream: dyadic coordinates of shapes (3,), (n,3), (m,n,3) incl. broadcast mixes, power-of-two "
         "orthorhombic boxes (all axis permutations/signs), float64 dyadic triclinic boxes, per-model boxes, through "
         "displacement/index_displacement/distance/coord_to_fraction/fraction_to_coord/move_inside_box/"
-        "remove_pbc_from_coord/remove_pbc/repeat_box(_coord)/is_orthogonal/box_volume/centroid, compared as exact "
+        "remove_pbc_from_coord/remove_pbc/repeat_box(_coord)/is_orthogonal/box_volume/centroid/90-degree unit cells, compared as exact "
         "rationals with the Lean model; float stream: random float32/float64 geometry judged by the oracle "
         "(textbook formulae, rigid-motion invariance, lattice enumeration). non-trivial = at least two distinct "
         "coordinates and (box given => some coordinate pair crosses a box face) or an error branch; "
@@ -46,14 +46,19 @@ LEVEL_TEXT = ("Lean 4 proofs over Q / commutative rings for: rigid-motion invari
               "height (squared form); move_inside_box lands in [0,1)^3, moves by a lattice vector, is idempotent; "
               "coord_to_fraction/fraction_to_coord are mutually inverse; repeat_box enumerates every lattice shift of the "
               "cube exactly once; remove_pbc_from_coord moves every atom by a lattice vector and leaves array neighbours at "
-              "their minimum-image displacement. Partial: floats, sqrt/arccos/atan2, unit-cell trigonometry, bonded (not "
-              "array-adjacent) atoms are checked numerically only.")
+              "their minimum-image displacement, i.e. every pair of array neighbours of a molecule ends as the shortest of its "
+              "own periodic images (orthorhombic always, triclinic below half height; unchanged by remove_pbc's centroid "
+              "translation). Unit cell <-> vectors: only the algebraic core (C15_unitcell_inverse_partial: given sin^2 = 1 - cos^2 "
+              "and c_z^2 = c^2 - c_x^2 - c_y^2 the box has the requested squared lengths and dot products, over any field) and "
+              "the exact orthorhombic sub-case are theorems. Partial: floats, sqrt/arccos/atan2/cos/sin, the round-off "
+              "clean-up of vectors_from_unitcell, and bonded but not array-adjacent atoms (known finding: remove_pbc follows "
+              "array order) are checked numerically only.")
 LEVEL_NOTE = ("model tied to the code by an exact-rational differential stream and by Gen/C15.lean (constants and loop "
               "ranges re-extracted from geometry.py / box.py on every run); float behaviour judged by a tolerance oracle")
 TECHNIQUE = "Lean 4 proof (polynomial identities, floor/argmin lemmas, list induction) + exact-rational correspondence + float oracle"
 
 K_ARRAY_FAR = "C15/remove_pbc/bonded-atoms-not-array-adjacent-and-far-apart"
-K_UNITCELL_SNAP = "C15/vectors_from_unitcell/small-component-zeroed-by-sum-scaled-tolerance"
+K_UNITCELL_SNAP = "C15/vectors_from_unitcell/small-component-zeroed-by-sum-scaled-tolerance"   # repaired (c1ca2e86); regression key
 K_REPEAT_AMOUNT = "C15/repeat_box/amount-ignored"
 
 
@@ -191,6 +196,18 @@ def extract_constants():
     passed = (len(c.args) >= 3 and isinstance(c.args[2], ast.Name) and c.args[2].id == "amount") or any(
         k.arg == "amount" and isinstance(k.value, ast.Name) and k.value.id == "amount" for k in c.keywords)
     out["repeatBoxPassesAmount"] = bool(passed)
+    # --- vectors_from_unitcell: is the zeroing tolerance scaled by the SUM of the three lengths?
+    f = _func(bt, "vectors_from_unitcell")
+    tols = [n for n in ast.walk(f) if isinstance(n, ast.Assign) and len(n.targets) == 1
+            and isinstance(n.targets[0], ast.Name) and n.targets[0].id == "tol"]
+    if len(tols) != 1:
+        raise ValueError("vectors_from_unitcell: `tol = ...` not found")
+    lens_ = {"len_a", "len_b", "len_c"}
+    out["unitcellTolUsesSum"] = any(
+        isinstance(n, ast.BinOp) and isinstance(n.op, ast.Add)
+        and any(isinstance(m, ast.Name) and m.id in lens_ for m in ast.walk(n.left))
+        and any(isinstance(m, ast.Name) and m.id in lens_ for m in ast.walk(n.right))
+        for n in ast.walk(tols[0].value))
     return out
 
 
@@ -221,6 +238,8 @@ def gen_lean():
         "def orthoPairs : List (Nat × Nat) := [" + ", ".join(f"({a}, {b})" for a, b in k["orthoPairs"]) + "]",
         "/-- `repeat_box` hands its `amount` argument on to `repeat_box_coord` -/",
         f"def repeatBoxPassesAmount : Bool := {'true' if k['repeatBoxPassesAmount'] else 'false'}",
+        "/-- the round-off clean-up of `vectors_from_unitcell` compares with a tolerance built from the SUM of the lengths -/",
+        f"def unitcellTolUsesSum : Bool := {'true' if k['unitcellTolUsesSum'] else 'false'}",
         "end BiotiteModel.Gen.C15", ""]
     return {"BiotiteModel/Gen/C15.lean": "\n".join(body)}
 
@@ -495,6 +514,7 @@ def gen_exact(rng):
         ops.append(f"vol {enc_box(boxarg)}")
         a = _arr(rng, (rng.choice([1, 2, 4, 8]),))
         ops.append(f"centroid {dt} {enc_arr(a)}")
+        ops.append("ucell90 " + " ".join(q2s(Fr(rng.randint(1, 2000), rng.choice([1, 2, 4, 8, 16]))) for _ in range(3)))
         if rng.random() < 0.5:
             ops.append(f"disp f64 {enc_arr(_arr(rng, ()))} {enc_arr(_arr(rng, (2,)))} {enc_box(boxarg)}")
     return {"kind": kind, "ops": ops}
@@ -645,6 +665,14 @@ def _run_op(np, struc, w):
         r = struc.box_volume(_npbox(np, dec_box(w[1]), "float64"))
         # LU-based determinant of small dyadic matrices: exact up to the final products; snap to the 1/64 grid
         return "ok " + out_scal(r, lambda c: Fr(round(Fr(float(c)) * 4096), 4096))
+    if name == "ucell90":
+        import math
+        lens = [float(Fr(x)) for x in w[1:4]]
+        box = struc.vectors_from_unitcell(*lens, math.pi / 2, math.pi / 2, math.pi / 2)
+        back = struc.unitcell_from_vectors(box)
+        flags = ",".join("T" if abs(float(x) - math.pi / 2) < 1e-6 else "F" for x in back[3:])
+        return ("ok b:" + ";".join(enc_vec([Fr(float(c)) for c in r]) for r in box) + " "
+                + ",".join(q2s(Fr(float(x))) for x in back[:3]) + " " + flags)
     if name == "centroid":
         return "ok " + out_arr(struc.centroid(np_arr(dec_arr(w[2]), DT[w[1]])))
     return "bad-op"
